@@ -167,7 +167,7 @@ func init() {
 		module: "Cases.Monitors", checkFn: "check_C04", quickN: 300, thoroN: 4000,
 		nontriv: func(h *HHistory, obs []HObs) bool { return hasReplay(h, obs, "refresh") },
 		rule:    common + "contains a second presentation of a refresh token that was exchanged successfully"})
-	regHist(&histProp{id: "C05", profile: mk("C05", func(p *Profile) { p.WRefresh = 34; p.WSetClient = 10; p.Smuggle = 40; p.Bad = 22 }),
+	regHist(&histProp{id: "C05", profile: mk("C05", func(p *Profile) { p.WRefresh = 30; p.WSetClient = 10; p.Smuggle = 40; p.Bad = 22; p.WDeviceAuth, p.WDecide, p.WDevicePoll, p.WPassword = 12, 14, 18, 8; p.WRedeem = 16; p.NoRefreshScopes, p.NoRefreshGrant = 25, 20 }),
 		module: "Cases.Monitors", checkFn: "check_C05", quickN: 300, thoroN: 4000,
 		nontriv: func(h *HHistory, obs []HObs) bool {
 			seenSet := false
@@ -215,7 +215,7 @@ func init() {
 		rule: common + "the probes contain active and inactive answers and the history has explicit introspections (hints, required scopes, tampered tokens)"})
 	regHist(&histProp{id: "C16", profile: mk("C16", func(p *Profile) {
 		p.WAuthorize, p.WRedeem, p.WRefresh, p.WRevoke, p.WPassword, p.WPush, p.WAuthorizePAR = 3, 3, 8, 3, 1, 0, 0
-		p.WDeviceAuth, p.WDecide, p.WDevicePoll, p.WAdvance, p.Bad, p.ShortLives = 16, 16, 34, 10, 22, 45
+		p.WDeviceAuth, p.WDecide, p.WDevicePoll, p.WAdvance, p.Bad, p.ShortLives = 16, 16, 34, 10, 32, 45
 	}), module: "Cases.Monitors", checkFn: "check_C16", quickN: 300, thoroN: 5000,
 		nontriv: func(h *HHistory, obs []HObs) bool {
 			polls := 0
